@@ -18,8 +18,13 @@ func VerifC17_RollingRevisionParents() {
 	x1 := rt.String("old-value")
 	x2 := rt.String("new-value")
 	rt.Assume(x1 != x2)
-	r := &verifRollWorld{}
-	*r = *verifNewRollWorldNested(namespaced, nested, verifRollMethod(), []string{"a", "b"}, x1)
+	r := verifNewRollWorldNested(namespaced, nested, verifRollMethod(), []string{"a", "b"}, x1)
+	// a hook may leave the status out: the rollout condition is then built on a
+	// fresh map, never inside the cached parent's own status
+	if rt.Bool("hook-answers-without-a-status") {
+		rt.Cover("null-hook-status")
+		r.nullStatus = true
+	}
 	rt.Assert(r.sync() == nil, "first-sync/error")
 	r.markHealthy()
 	r.setSpec(x2)
